@@ -1,8 +1,490 @@
 //go:build verif
 
+// Generator for C06. Every random choice comes from r.
 package main
 
-import "github.com/semihalev/sdns/internal/verif/vlib"
+import (
+	"encoding/binary"
+	"fmt"
+
+	"github.com/miekg/dns"
+	"github.com/semihalev/sdns/internal/verif/vlib"
+	"github.com/semihalev/sdns/middleware/edns"
+)
+
+var advSizes = []int{0, 1, 256, 511, 512, 513, 600, 1000, 1231, 1232, 1233, 1400, 1452, 4096, 65535}
+
+func genClientOptions(r *vlib.R) []aOption {
+	var os []aOption
+	add := func(c int, d []byte) { os = append(os, aOption{code: c, data: d}) }
+	if r.Chance(2, 5) {
+		switch r.Intn(6) {
+		case 0:
+			add(optCookie, r.Bytes(24)) // client + an old server cookie
+		case 1:
+			add(optCookie, r.Bytes(4)) // too short to be a client cookie
+		default:
+			add(optCookie, r.Bytes(8))
+		}
+	}
+	if r.Chance(1, 3) {
+		if r.Chance(1, 4) {
+			add(optECS, append([]byte{0, 2, 56, 0}, r.Bytes(7)...))
+		} else {
+			add(optECS, append([]byte{0, 1, 24, 0}, r.Bytes(3)...))
+		}
+	}
+	if r.Chance(1, 4) {
+		if r.Bool() {
+			add(optKeepalive, nil)
+		} else {
+			add(optKeepalive, []byte{0x00, 0x64})
+		}
+	}
+	if r.Chance(1, 3) {
+		add(optNSID, nil)
+	}
+	if r.Chance(1, 6) {
+		add(optPadding, make([]byte, r.Intn(40)))
+	}
+	if r.Chance(1, 8) {
+		add(65001, r.Bytes(1+r.Intn(6)))
+	}
+	if r.Chance(1, 12) {
+		add(optEDE, append([]byte{0, byte(r.Intn(30))}, []byte("client")...))
+	}
+	// shuffle
+	for i := len(os) - 1; i > 0; i-- {
+		j := r.Intn(i + 1)
+		os[i], os[j] = os[j], os[i]
+	}
+	return os
+}
+
+func genQ(r *vlib.R) aQ {
+	q := aQ{id: 1 + r.Intn(0x6fff)}
+	if r.Chance(1, 5) {
+		q.id = 0x8001 + r.Intn(0x7ffe)
+	}
+	if r.Chance(1, 16) {
+		q.opcode = 1 + r.Intn(15)
+	}
+	q.rd, q.ad, q.cd = r.Chance(4, 5), r.Chance(1, 3), r.Chance(1, 4)
+	switch r.Intn(8) {
+	case 0:
+		q.qtype = int(dns.TypeRRSIG)
+	case 1:
+		q.qtype = int(dns.TypeTXT)
+	case 2:
+		q.qtype = int(dns.TypeAAAA)
+	default:
+		q.qtype = int(dns.TypeA)
+	}
+	q.qlen = len(wireName(qnameOf(q.id))) + 4
+	if r.Chance(3, 4) {
+		o := aOpt{present: true, do: r.Bool()}
+		if r.Chance(2, 3) {
+			o.udp = vlib.Pick(r, advSizes)
+		} else {
+			o.udp = r.Intn(65536)
+		}
+		if r.Chance(1, 12) {
+			o.ver = vlib.Pick(r, []int{1, 1, 2, 255})
+		}
+		o.opts = genClientOptions(r)
+		q.opt = o
+	}
+	return q
+}
+
+func genUpstreamOptions(r *vlib.R) []aOption {
+	var os []aOption
+	add := func(c int, d []byte) { os = append(os, aOption{code: c, data: d}) }
+	if r.Chance(1, 3) {
+		add(optECS, append([]byte{0, 1, 24, 24}, r.Bytes(3)...))
+	}
+	if r.Chance(1, 3) {
+		add(optCookie, r.Bytes(vlib.Pick(r, []int{8, 16, 24, 40})))
+	}
+	if r.Chance(1, 3) {
+		add(optKeepalive, []byte{0x12, 0x34})
+	}
+	if r.Chance(1, 5) {
+		add(optPadding, make([]byte, r.Intn(64)))
+	}
+	if r.Chance(1, 5) {
+		add(65002, r.Bytes(1+r.Intn(8)))
+	}
+	if r.Chance(1, 4) {
+		add(optEDE, append([]byte{0, byte(r.Intn(30))}, []byte(vlib.Pick(r, []string{"", "stale", "upstream said so"}))...))
+	}
+	if r.Chance(1, 6) {
+		add(optNSID, []byte("upns"))
+	}
+	for i := len(os) - 1; i > 0; i-- {
+		j := r.Intn(i + 1)
+		os[i], os[j] = os[j], os[i]
+	}
+	return os
+}
+
+// estOptLen: the OPT a client can legitimately be handed back (for aiming at
+// the size boundary only).
+func estOptLen(q aQ, cfg deployCfg, proto string) int {
+	if !q.opt.present {
+		return 0
+	}
+	n := 11
+	for _, o := range q.opt.opts {
+		switch {
+		case o.code == optCookie && len(o.data) >= 8:
+			n += 44
+		case o.code == optNSID && len(cfg.nsid) > 0:
+			n += 4 + len(cfg.nsid)
+		case o.code == optKeepalive && proto == "tcp":
+			n += 6
+		}
+	}
+	return n
+}
+
+func limitOf(q aQ) int {
+	adv := 512
+	if q.opt.present {
+		adv = q.opt.udp
+	}
+	return max(512, min(adv, 1232))
+}
+
+// genR builds an upstream response for q. target > 0 asks for a total reply
+// size near target bytes (with `jitter` added to the last payload).
+func genR(r *vlib.R, q aQ, cfg deployCfg, proto string, target int, jitter int) aR {
+	u := aR{mode: 'e'}
+	if r.Chance(1, 30) {
+		u.mode = 'n'
+	}
+	switch r.Intn(10) {
+	case 0:
+		u.rcode = dns.RcodeNameError
+	case 1:
+		u.rcode = dns.RcodeServerFailure
+	case 2:
+		u.rcode = dns.RcodeRefused
+	case 3:
+		if q.opt.present && q.opt.ver == 0 && q.opcode == 0 {
+			u.rcode = 16 + r.Intn(8)
+		}
+	}
+	u.ad, u.aa, u.tc, u.ra, u.z = r.Bool(), r.Chance(1, 5), r.Chance(1, 20), r.Chance(4, 5), r.Chance(1, 30)
+	id := 0
+	next := func(kind byte, p int) aRR {
+		id++
+		x := aRR{kind: kind, id: id, p: p, owner: 'q'}
+		if r.Chance(1, 4) {
+			x.owner = 'u'
+		}
+		measure(&x, q.id)
+		return x
+	}
+	signed := r.Chance(1, 2)
+	nan := r.Intn(4)
+	if u.rcode == dns.RcodeNameError {
+		nan = 0
+	}
+	for i := 0; i < nan; i++ {
+		u.an = append(u.an, next('A', r.Intn(48)))
+		if signed {
+			u.an = append(u.an, next('S', vlib.Pick(r, []int{64, 96, 128})))
+		}
+	}
+	if q.qtype == int(dns.TypeRRSIG) && r.Chance(2, 3) {
+		u.an = append(u.an, next('S', 64))
+	}
+	if nan == 0 || r.Chance(1, 4) {
+		u.ns = append(u.ns, next('A', 30))
+		if signed {
+			u.ns = append(u.ns, next('S', 64))
+			for k := r.Intn(3); k > 0; k-- {
+				u.ns = append(u.ns, next(vlib.Pick(r, []byte{'N', '3'}), 0))
+				u.ns = append(u.ns, next('S', 64))
+			}
+		}
+	}
+	for k := r.Intn(3); k > 0 && r.Chance(1, 2); k-- {
+		u.ex = append(u.ex, next('A', r.Intn(20)))
+	}
+	if signed && r.Chance(1, 4) {
+		u.ex = append(u.ex, next('S', 64)) // signatures in additional are not the property's business
+	}
+	if r.Chance(11, 20) {
+		u.opt = aOpt{present: true, udp: vlib.Pick(r, []int{512, 1232, 4096}), do: r.Bool(), opts: genUpstreamOptions(r)}
+		if r.Chance(1, 6) {
+			u.opt = aOpt{present: true, same: true}
+		}
+		if r.Chance(1, 25) {
+			u.opt.ver = 1
+		}
+		pos := r.Intn(len(u.ex) + 1)
+		ex := append([]aRR(nil), u.ex[:pos]...)
+		ex = append(ex, aRR{kind: 'O'})
+		u.ex = append(ex, u.ex[pos:]...)
+		if !u.opt.same && r.Chance(1, 40) {
+			// a malformed upstream: the same OPT twice
+			u.ex = append(u.ex, aRR{kind: 'O'})
+		}
+	}
+	if target > 0 {
+		// pad with one big record so that the reply a DO-less / DO client gets is near target
+		cur := 12 + q.qlen + estOptLen(q, cfg, proto)
+		clientDO := q.opt.present && q.opt.do
+		for _, sec := range [][]aRR{u.an, u.ns, u.ex} {
+			for _, x := range sec {
+				if x.kind == 'O' {
+					continue
+				}
+				strip := (x.kind == 'S' || x.kind == 'N' || x.kind == '3') && !clientDO && q.qtype != int(dns.TypeRRSIG)
+				if !strip {
+					cur += x.cl
+				}
+			}
+		}
+		// a TXT record "i<id>" + chunks: overhead = owner(2) + 10 + 1+len("i<id>") + chunk length bytes
+		need := target - cur
+		if need > 40 {
+			probe := next('A', 0)
+			p := need - probe.cl
+			p -= (p + 254) / 255 // one length byte per 255-byte chunk
+			p += jitter
+			if p < 0 {
+				p = 0
+			}
+			big := aRR{kind: 'A', id: probe.id, p: p, owner: probe.owner}
+			measure(&big, q.id)
+			u.an = append(u.an, big)
+		}
+	}
+	return u
+}
+
+func protoPick(r *vlib.R) string {
+	return vlib.Pick(r, []string{"udp", "udp", "udp", "tcp", "tcp", "doh", "doq"})
+}
+
+func genCfg(r *vlib.R) deployCfg {
+	c := deployCfg{secret: r.Bool(), ecs: r.Chance(1, 3), ka: int(edns.VerifC06KeepaliveUnits())}
+	if r.Bool() {
+		c.nsid = []byte(vlib.Pick(r, []string{"ns1", "sdns-node-07.example"}))
+	}
+	return c
+}
+
+func cfgArgs(c deployCfg) string {
+	return fmt.Sprintf("%s %s %s %d", vlib.Hex(c.nsid), vlib.B(c.secret), vlib.B(c.ecs), c.ka)
+}
+
+func genAccept(r *vlib.R) string {
+	fl := r.Intn(65536)
+	if r.Chance(2, 3) {
+		fl = r.Intn(2)<<15 | r.Intn(16)<<11 | r.Intn(2048)
+	}
+	cnt := func() int {
+		if r.Chance(1, 8) {
+			return r.Intn(65536)
+		}
+		return vlib.Pick(r, []int{0, 0, 1, 1, 1, 2, 3, 65535})
+	}
+	qd := 1
+	if r.Chance(1, 2) {
+		qd = cnt()
+	}
+	small := func() int {
+		if r.Chance(1, 2) {
+			return 0
+		}
+		return cnt()
+	}
+	return fmt.Sprintf("accept hdr %d %d %d %d %d", fl, qd, small(), small(), small())
+}
+
+// malformed packets for the real listeners
+func genMalformed(r *vlib.R) []byte {
+	q := genQ(r)
+	q.opcode = 0
+	q.opt.ver = 0
+	base := rawQuery(q)
+	setFlags := func(b []byte, fl uint16) { binary.BigEndian.PutUint16(b[2:], fl) }
+	fl := binary.BigEndian.Uint16(base[2:])
+	switch r.Intn(12) {
+	case 0: // a response to nothing
+		setFlags(base, fl|0x8000)
+	case 1: // response bit with a foreign opcode
+		setFlags(base, fl|0x8000|uint16(1+r.Intn(15))<<11)
+	case 2, 3: // foreign opcodes 1..15 over an otherwise fine body
+		setFlags(base, fl&^0x7800|uint16(1+r.Intn(15))<<11)
+	case 4: // no question
+		base = base[:12]
+		binary.BigEndian.PutUint16(base[4:], 0)
+		binary.BigEndian.PutUint16(base[10:], 0)
+	case 5: // two questions
+		qs := base[12 : 12+q.qlen]
+		nb := append([]byte(nil), base[:12+q.qlen]...)
+		nb = append(nb, qs...)
+		nb = append(nb, base[12+q.qlen:]...)
+		binary.BigEndian.PutUint16(nb[4:], 2)
+		base = nb
+	case 6: // QDCOUNT says one, body is missing
+		base = base[:12]
+		binary.BigEndian.PutUint16(base[10:], 0)
+	case 7: // section counts that promise records which are not there
+		binary.BigEndian.PutUint16(base[6+2*r.Intn(2):], uint16(1+r.Intn(3)))
+	case 8: // truncated body
+		if len(base) > 13 {
+			base = base[:13+r.Intn(len(base)-13)]
+		}
+	case 9: // garbage after the header
+		base = append(base[:12], r.Bytes(1+r.Intn(40))...)
+	case 10: // too many additionals announced
+		binary.BigEndian.PutUint16(base[10:], uint16(3+r.Intn(4)))
+	case 11: // shorter than a header
+		base = base[:r.Intn(12)]
+	}
+	return base
+}
+
+const plainR = "R:e:0:R:-:-:-:-"
 
 func gen(r *vlib.R, n int, tier string, emit func(string)) {
+	budget := n
+	emitN := func(s string) {
+		emit(s)
+		budget--
+	}
+	// ---- function level
+	fnBudget := n * 6 / 10
+	for budget > n-fnBudget {
+		cfg := genCfg(r)
+		emitN("edns new " + cfgArgs(cfg))
+		for k := 20 + r.Intn(30); k > 0; k-- {
+			switch x := r.Intn(20); {
+			case x < 2:
+				emitN("edns set0 " + genQ(r).String())
+			case x < 4:
+				q := genQ(r)
+				q.opcode = 0
+				if r.Chance(1, 8) {
+					q.opcode = 1 + r.Intn(15)
+				}
+				u := genR(r, q, cfg, "tcp", 0, 0)
+				u.mode = 'e'
+				emitN(fmt.Sprintf("edns tomsg %s %s", q, u))
+			case x < 5:
+				emitN(genAccept(r))
+			case x < 9:
+				// size boundary sweep on udp: the same pair with the payload stepping across the limit
+				q := genQ(r)
+				q.opcode = 0
+				q.opt.ver = 0
+				if q.opt.present && r.Chance(2, 3) {
+					q.opt.udp = vlib.Pick(r, []int{511, 512, 513, 1231, 1232, 1233, 4096, 700})
+				}
+				path := vlib.Pick(r, []string{"d", "w"})
+				st := r.U64()
+				for j := -2; j <= 2; j++ {
+					rr := vlib.NewR(st) // same structure, different padding
+					u := genR(rr, q, cfg, "udp", limitOf(q), j)
+					u.mode = 'e'
+					emitN(fmt.Sprintf("edns serve %s udp %s %s", path, q, u))
+				}
+				k -= 4
+			default:
+				q := genQ(r)
+				proto := protoPick(r)
+				target := 0
+				if r.Chance(1, 5) {
+					target = vlib.Pick(r, []int{400, 600, 1300, 2500, 5000})
+				}
+				u := genR(r, q, cfg, proto, target, 0)
+				emitN(fmt.Sprintf("edns serve %s %s %s %s", vlib.Pick(r, []string{"d", "w"}), proto, q, u))
+			}
+		}
+	}
+	if tier == "thorough" {
+		// exhaustive small scope: DO x AD x CD x upstream AD x proto, with and without OPT
+		cfg := deployCfg{nsid: []byte("ns1"), secret: true, ka: int(edns.VerifC06KeepaliveUnits())}
+		emit("edns new " + cfgArgs(cfg))
+		id := 100
+		for _, proto := range []string{"udp", "tcp", "doh", "doq"} {
+			for mask := 0; mask < 32; mask++ {
+				id++
+				q := aQ{id: id, rd: true, ad: mask&1 != 0, cd: mask&2 != 0, qtype: 1}
+				q.qlen = len(wireName(qnameOf(q.id))) + 4
+				if mask&4 != 0 {
+					q.opt = aOpt{present: true, udp: 1232, do: mask&8 != 0}
+				}
+				s := aRR{kind: 'S', id: 2, p: 64, owner: 'q'}
+				a := aRR{kind: 'A', id: 1, p: 10, owner: 'q'}
+				measure(&s, q.id)
+				measure(&a, q.id)
+				u := aR{mode: 'e', ad: mask&16 != 0, ra: true, an: []aRR{a, s}}
+				emit(fmt.Sprintf("edns serve d %s %s %s", proto, q, u))
+				emit(fmt.Sprintf("edns serve w %s %s %s", proto, q, u))
+			}
+		}
+		// every advertised size around the two thresholds
+		for _, adv := range []int{505, 506, 507, 508, 509, 510, 511, 512, 513, 514, 515, 1228, 1229, 1230, 1231, 1232, 1233, 1234, 1235} {
+			id++
+			q := aQ{id: id, rd: true, qtype: 1, opt: aOpt{present: true, udp: adv}}
+			q.qlen = len(wireName(qnameOf(q.id))) + 4
+			emit("edns set0 " + q.String())
+			for j := -3; j <= 3; j++ {
+				rr := vlib.NewR(uint64(adv))
+				u := genR(rr, q, cfg, "udp", limitOf(q), j)
+				u.mode = 'e'
+				emit(fmt.Sprintf("edns serve d udp %s %s", q, u))
+			}
+		}
+	}
+
+	// ---- transport level
+	lives := 3
+	if tier == "thorough" {
+		lives = 8
+	}
+	per := budget / lives
+	if per < 40 {
+		per = 40
+	}
+	for l := 0; l < lives; l++ {
+		cfg := genCfg(r)
+		withCache := l%3 != 2
+		emit(fmt.Sprintf("srv new %s %s", cfgArgs(cfg), vlib.B(withCache)))
+		var pool []aQ
+		for k := 0; k < per; k++ {
+			entry := vlib.Pick(r, []string{"rawudp", "rawudp", "rawtcp", "inline", "msgdoh", "msgdoq", "http", "sockudp", "sockudp", "socktcp", "socktcp"})
+			if r.Chance(1, 5) {
+				emit(fmt.Sprintf("srv raw %s %s %s", vlib.Pick(r, []string{"sockudp", "socktcp"}), vlib.Hex(genMalformed(r)), plainR))
+				continue
+			}
+			q := genQ(r)
+			if len(pool) > 0 && r.Chance(1, 3) {
+				// ask an earlier question again (cache hit), possibly as a different kind of client
+				old := vlib.Pick(r, pool)
+				if r.Chance(1, 3) {
+					q = old
+				} else {
+					q.id, q.qlen, q.qtype, q.opcode = old.id, old.qlen, old.qtype, 0
+				}
+			}
+			pool = append(pool, q)
+			proto := kindOf(entry).proto
+			target := 0
+			if r.Chance(1, 3) {
+				target = limitOf(q) + vlib.Pick(r, []int{-40, -3, -1, 0, 1, 2, 40, 900, 3000})
+			}
+			u := genR(r, q, cfg, proto, target, 0)
+			u.mode = 'e'
+			emit(fmt.Sprintf("srv q %s %s %s", entry, q, u))
+		}
+		emit("srv stop")
+	}
 }
